@@ -323,6 +323,9 @@ def run(tier, seed):
                             if tier == "quick" and timing == "never" and edit != "prod_const":
                                 continue
                             jobs.append((placement, producer, timing, edit, store, populated, idx % 2 == 0, idx, "assign"))
+                            if store == "local" and timing in ("earlier_eval", "same_before") and edit in ("prod_const", "prod_var") and not populated:
+                                # the DBFS store that commits redirections only
+                                jobs.append((placement, producer, timing, edit, "dbfs_links", populated, idx % 2 == 0, idx * 10 + 3, "assign"))
                             if timing == "earlier_eval" and edit != "unrelated":
                                 jobs.append((placement, producer, timing, edit, store, populated, idx % 2 == 0, idx * 10 + 9, "assign", "direct"))
                             # the helpers that contain the load carry names of Python builtins
@@ -342,7 +345,7 @@ def run(tier, seed):
     for placement in PLACEMENTS:
         for producer in PRODUCERS:
             for ei, edit in enumerate(("prod_const", "prod_var", "prod_callee")):
-                for si, store in enumerate(("local", "local_lru", "dbfs", "local_api_cache_all", "local_api_cache_true")):
+                for si, store in enumerate(("local", "local_lru", "dbfs", "local_api_cache_all", "local_api_cache_true", "dbfs_links")):
                     idx += 1
                     if tier == "quick" and (ei + si + len(placement)) % 3 == 0 and store not in ("local_lru", "local_api_cache_all"):
                         continue
